@@ -13,7 +13,7 @@ RULE = ("Hypothesis draws either a generated benign ODE model (chains, epidemic 
         "SEIR_Birth_Death_Periodic, Lotka_Volterra, FitzHugh, SIR_norm, vanDerPol with small mu, Lorenz and Robertson on short horizons), a grid of "
         "1-12 strictly increasing times after t0 (uniform or non-uniform with gaps from 1e-3 to 2; list, tuple, array or a single number) and an entry "
         "point in {integrate, integrate(full_output=True), solve_determ, integrate2(method, full_output), ode_utils.integrateFuncJac(method, "
-        "full_output, includeOrigin)} with method in {None, lsoda, vode, ivode, dopri5, dop853}. Oracle: number of rows = len(grid) (+1 where the "
+        "full_output, includeOrigin)} with method in {None, lsoda, vode, ivode, dopri5, dop853}; grids also as integer typed arrays / lists / tuples with a fractional t0, x0 as list / tuple / array / Python ints / integer typed array; in half of the cases a SECOND solve follows on the same model object with another entry point, method, grid and initial condition. Oracle: number of rows = len(grid) (+1 where the "
         "origin is included, and then row 0 == x0 exactly); row k vs an independent reference solution at t_k (two scipy solve_ivp references at "
         "rtol 1e-12 must agree): |diff| <= tol*(1+max|x_ref|), tol = 1e-5 for the odeint path and 1e-6 for integrateFuncJac; full_output=True returns "
         "(solution, info). Conditioning is measured per case (error of a rtol=1e-6 run / 1e-6); amplification > 20 => inconclusive. "
@@ -96,6 +96,17 @@ def strategy(tier):
                 c["setup"] = dict(c["setup"], x0=[float(round(v)) for v in c["setup"]["x0"]])
             else:
                 c["x0_type"] = "list"
+        if draw(st.booleans()):
+            su = c["setup"]
+            n2 = draw(st.integers(1, 6))
+            last = su["grid_rel"][-1]
+            rel2 = sorted(set(S.sig(last * draw(S.fl(0.05, 1.0, 3)), 5) for _ in range(n2)))
+            c["second"] = {"entry": draw(st.sampled_from(["integrate", "integrate-full", "solve_determ", "integrate2", "funcjac"])),
+                           "method": draw(st.sampled_from(METHODS)), "full_output": draw(st.booleans()),
+                           "include_origin": draw(st.booleans()), "grid_type": draw(st.sampled_from(["list", "tuple", "array", "number"])),
+                           "x0_type": draw(st.sampled_from(["list", "array", "tuple"])),
+                           "setup": {"x0": [S.sig(v * draw(st.sampled_from([1.0, 0.8, 1.2])) + (0.0 if v else 0.01), 5) for v in su["x0"]],
+                                     "t0": su["t0"] + draw(st.sampled_from([0.0, 0.0, 0.5, 1.0])), "grid_rel": rel2}}
         return c
     return case()
 
@@ -119,36 +130,35 @@ def _build(case):
     return model, f
 
 
-def oracle(case, rec):
+def _run(case, rec, part, model, f, tag=""):
     from pygom.model import ode_utils
-    su = case["setup"]
+    su = part["setup"]
     x0, t0 = list(su["x0"]), su["t0"]
     times = np.array([t0 + v for v in su["grid_rel"]])
-    if case["grid_type"] == "number":
+    if part["grid_type"] == "number":
         times = times[-1:]
     if len(times) == 0 or not (np.diff(np.concatenate([[t0], times])) > 0).all():
         raise Inconclusive("degenerate grid")
     n_s = len(x0)
-    entry, method = case["entry"], case["method"]
-    key = "C02/%s" % entry
-    model, f = call(key + "/construct", case, _build, case)
+    entry, method = part["entry"], part["method"]
+    key = "C02/%s%s" % (tag, entry)
     odeint_path = entry in ("integrate", "integrate-full", "solve_determ")
     tol = 1e-5 if odeint_path else 1e-6
     ref, amp = refsolve.reference_solution(f, x0, t0, times, tol)
     if amp > 20:
         raise Inconclusive("ill-conditioned")
-    gt = case["grid_type"]
+    gt = part["grid_type"]
     if gt.startswith("int") and not np.all(times == np.rint(times)):
         raise Inconclusive("integer grid form on non-integer times")
     itimes = np.rint(times).astype(int)
     garg = {"list": list(times), "tuple": tuple(times), "array": times, "number": float(times[-1]), "int_array": itimes,
             "int_list": [int(v) for v in itimes], "int_tuple": tuple(int(v) for v in itimes)}[gt]
-    xt = case.get("x0_type", "list")
+    xt = part.get("x0_type", "list")
     x0_arg = {"list": list(x0), "array": np.array(x0, float), "tuple": tuple(x0), "int_list": [int(v) for v in x0],
               "int_array": np.array([int(v) for v in x0])}[xt] if xt in ("list", "array", "tuple") or all(v == int(v) for v in x0) else list(x0)
     model.initial_values = (x0_arg, t0)
     label_m = "odeint" if odeint_path else str(method)
-    rec.label("entry:" + entry, "method:" + label_m, "grid:" + case["grid_type"], "source:" + case["source"], "x0:" + xt,
+    rec.label("entry:" + entry, "method:" + label_m, "grid:" + part["grid_type"], "source:" + case["source"], "x0:" + xt,
               "model:" + (case.get("name") or case["model"]["family"]))
     info = None
     origin = True
@@ -163,20 +173,20 @@ def oracle(case, rec):
     elif entry == "solve_determ":
         out = call(key, case, model.solve_determ, garg)
     elif entry == "integrate2":
-        key = "C02/integrate2/%s" % method
-        out = call(key, case, model.integrate2, garg, case["full_output"], method)
-        if case["full_output"]:
+        key = "C02/%sintegrate2/%s" % (tag, method)
+        out = call(key, case, model.integrate2, garg, part["full_output"], method)
+        if part["full_output"]:
             try:
                 out, info = out
             except Exception:
                 raise PropertyViolation(key + "/return", "integrate2(full_output=True) did not return (solution, info)", case)
     else:
-        key = "C02/integrateFuncJac/%s" % method
-        origin = case["include_origin"]
+        key = "C02/%sintegrateFuncJac/%s" % (tag, method)
+        origin = part["include_origin"]
         out = call(key, case, ode_utils.integrateFuncJac, model.ode_T, model.jacobian_T,
                    x0_arg if isinstance(x0_arg, np.ndarray) else np.array(x0_arg), t0, garg,
-                   includeOrigin=origin, full_output=case["full_output"], method=method)
-        if case["full_output"]:
+                   includeOrigin=origin, full_output=part["full_output"], method=method)
+        if part["full_output"]:
             try:
                 out, info = out
             except Exception:
@@ -203,7 +213,24 @@ def oracle(case, rec):
     if len(times) >= 3 and moved > 100 * tol * scale:
         sample = {"entry": entry, "method": method, "grid_rel": su["grid_rel"], "x0": x0, "t0": t0,
                   "model": case.get("name") or pretty(case["model"])}
-        rec.mark_nontrivial(case, sample)
+        return sample
+    return None
+
+
+
+
+def oracle(case, rec):
+    model, f = call("C02/construct", case, _build, case)
+    sample = _run(case, rec, case, model, f)
+    # a second solve on the SAME model object with another entry point / method / grid / initial condition: nothing the
+    # first call left behind (cached solution, integrator name, time vector) may leak into it
+    sec = case.get("second")
+    sample2 = None
+    if sec:
+        rec.label("second-call:%s-after-%s" % (sec["entry"], case["entry"]))
+        sample2 = _run(case, rec, sec, model, f, tag="second-call/")
+    if sample is not None or sample2 is not None:
+        rec.mark_nontrivial(case, dict(sample or sample2, second=(sec or {}).get("entry")))
 
 
 SELFTESTS = [jets.selftest, refsolve.selftest]
